@@ -180,6 +180,13 @@ TABLE = {
     'const_par_curve': ([q, obj, q, nat], 'q_const_par_curve {0} {1} {2} {3}', res(obj)),
     'default_obj': ([boo, lst(basis)], 'if {0} then q_default_obj_rat {1} else q_default_obj {1}', obj),
     'bounding_box': ([obj], 'q_obj_bounding_box {0}', lst(qpair)),
+    'model_faces': ([triple_nat, nat, nat, boo, triple_nat, nat, nat, boo, boo, boo, boo],
+                    'let g := SplipyModel.Model.Faces2.mkGluing {0} {1} {2} {3} {4} {5} {6} {7} {8} {9} {10} in (x_conform g, map (fun f => (map (fun p => [fst (fst p); snd (fst p); snd p]) (SplipyModel.Model.Faces.nodes f), SplipyModel.Model.Faces.owner f, '
+                    'match SplipyModel.Model.Faces.neighbor f with Some n => Z.of_nat n | None => (-1)%Z end)) (x_model_faces g))',
+                    pair(boo, lst(face))),
+    'loft': ([q, boo, lst(obj), qlist], 'if {1} then q_vloft {0} {2} {3} else q_loft {0} {2} {3}', res(obj)),
+    'cubic_periodic': ([q, qlist, lst(qlist)], 'q_cubic_periodic {0} {1} {2}', res(obj)),
+    'surface_lsq': ([q, basis, basis, qlist, qlist, lst(qlist)], 'match q_surface_lsq {0} {1} {2} {3} {4} {5} with Ok o => Ok (o_cps o) | Err e => Err e end', res(lst(qlist))),
     'number_model': ([lst(natlist)], 'let r := x_number_model {0} in (snd r, fst r)', pair(nat, lst(natlist))),
     'eval_grid': ([q, obj, lst(qlist)], 'q_obj_eval_grid {0} {1} {2}', res(lst(qlist))),
     'eval_pointwise': ([q, obj, lst(qlist)], 'q_obj_eval_pointwise {0} {1} {2}', res(lst(qlist))),
@@ -225,7 +232,7 @@ def render(line, out):
     return '(ceq (%s) (%s))' % (templ.format(*args), exp)
 
 
-HEAVY = {'const_par_curve', 'stl_write_surface', 'eval_grid', 'eval_pointwise', 'obj_append', 'obj_raise_order', 'obj_lower_order', 'solve', 'curve_interpolate', 'curve_lsq', 'obj_split', 'obj_make_periodic',
+HEAVY = {'loft', 'cubic_periodic', 'surface_lsq', 'const_par_curve', 'stl_write_surface', 'eval_grid', 'eval_pointwise', 'obj_append', 'obj_raise_order', 'obj_lower_order', 'solve', 'curve_interpolate', 'curve_lsq', 'obj_split', 'obj_make_periodic',
          'obj_lower_periodic', 'basis_integrate', 'obj_center'}
 
 
